@@ -31,8 +31,13 @@ class Lock:
 def _prune(prefix, keep, n_keep=6):
     """bound the cache: keep the newest few entries (another check may be running on a different tree right now)"""
     fs = [f for f in glob.glob(os.path.join(CACHE, prefix + '*')) if f != keep and not f.endswith('.lock') and '.tmp' not in f]
-    fs.sort(key=lambda f: os.path.getmtime(f) if os.path.exists(f) else 0, reverse=True)
+    def mt(f):
+        try: return os.path.getmtime(f)
+        except OSError: return 0
+    fs.sort(key=mt, reverse=True)
+    now = time.time()
     for f in fs[n_keep:]:
+        if now - mt(f) < 3 * 3600: continue          # recent: may belong to a check that is still running
         try: os.remove(f)
         except OSError: pass
 
@@ -42,6 +47,9 @@ def mir_dump():
     out = os.path.join(CACHE, 'seed-%s.mir' % h)
     with Lock('mir'):
         if os.path.exists(out) and os.path.getsize(out) > 1000000 and os.path.exists(os.path.join(CACHE, 'parser-%s.rs' % h)):
+            for f in (out, os.path.join(CACHE, 'parser-%s.rs' % h)):
+                try: os.utime(f, None)          # (in use: keeps it out of the pruning)
+                except OSError: pass
             return out, 0.0, True
         t0 = time.time()
         tgt = os.path.join(CACHE, 'mir-target')
@@ -82,7 +90,10 @@ def native_bin():
     h = src_hash()
     out = os.path.join(CACHE, 'seedbin-%s' % h)
     with Lock('native'):
-        if os.path.exists(out): return out, 0.0, True
+        if os.path.exists(out):
+            try: os.utime(out, None)
+            except OSError: pass
+            return out, 0.0, True
         t0 = time.time()
         tgt = os.path.join(CACHE, 'native-target')
         p = subprocess.run(['cargo', 'build', '--offline', '--locked', '--bin', 'seed', '--target-dir', tgt], cwd=REPO, env=ENV,
